@@ -224,10 +224,15 @@ fn crate_flags(idx: u8) -> AuthenticatorDataFlags {
 
 /// Call the real serialiser. Ok(bytes) / Err(status).
 fn call_real(x: &AuthDataSpec) -> Result<Vec<u8>, u8> {
-    let rp: [u8; 32] = fb(x.fill, 1, 32).try_into().unwrap();
-    let aaguid = fb(x.fill, 2, x.aaguid_len);
-    let id = fb(x.fill, 3, x.id_len);
-    let key = fb(x.fill, 4, x.key_len);
+    // every borrowed input at an address alignment of its own (1 + a value derived from the run's fill word)
+    use crate::guard::Placed;
+    let al = |k: u32| ((x.fill >> (3 * k)) & 7) as usize;
+    let rp_p = Placed::new(&fb(x.fill, 1, 32), al(1));
+    let rp: &[u8; 32] = rp_p.get().try_into().unwrap();
+    let aaguid_p = Placed::new(&fb(x.fill, 2, x.aaguid_len), al(2));
+    let id_p = Placed::new(&fb(x.fill, 3, x.id_len), al(3));
+    let key_p = Placed::new(&fb(x.fill, 4, x.key_len), al(4));
+    let (aaguid, id, key) = (aaguid_p.get(), id_p.get(), key_p.get());
     if x.flavour == 0 {
         use ctap2::make_credential::{AttestedCredentialData, AuthenticatorData, Extensions};
         let ext = if x.ext {
@@ -250,10 +255,10 @@ fn call_real(x: &AuthDataSpec) -> Result<Vec<u8>, u8> {
             None
         };
         let ad = AuthenticatorData {
-            rp_id_hash: &rp,
+            rp_id_hash: rp,
             flags: crate_flags(x.flags),
             sign_count: x.count,
-            attested_credential_data: if x.attested { Some(AttestedCredentialData { aaguid: &aaguid, credential_id: &id, credential_public_key: &key }) } else { None },
+            attested_credential_data: if x.attested { Some(AttestedCredentialData { aaguid, credential_id: id, credential_public_key: key }) } else { None },
             extensions: ext,
         };
         ad.serialize().map(|b| b.to_vec()).map_err(|e| e as u8)
@@ -273,7 +278,7 @@ fn call_real(x: &AuthDataSpec) -> Result<Vec<u8>, u8> {
             None
         };
         let ad = AuthenticatorData {
-            rp_id_hash: &rp,
+            rp_id_hash: rp,
             flags: crate_flags(x.flags),
             sign_count: x.count,
             attested_credential_data: if x.attested { Some(NoAttestedCredentialData) } else { None },
@@ -377,10 +382,20 @@ pub fn exec(dev: &mut Device, x: &AuthDataSpec, log: &mut Log) -> Option<Finding
             }
             if x.ext {
                 match cbor::decode_one(&b[fixed_len..]) {
-                    Ok((V::M(mut got), _)) => {
-                        cbor::sort_canonical(&mut got);
-                        if got != want_ext {
+                    Ok((V::M(got), _)) => {
+                        let mut sorted = got.clone();
+                        cbor::sort_canonical(&mut sorted);
+                        if sorted != want_ext {
                             return finding("extension_map", format!("extension map is {} but {} was supplied", cbor::show(&V::M(got)), cbor::show(&V::M(want_ext))));
+                        }
+                        // WebAuthn 6: all CBOR in authenticator data is in the CTAP2 canonical form - keys in
+                        // canonical order (shorter first, then bytewise), shortest integer and length encodings
+                        if got != want_ext {
+                            return finding("extension_map_order", format!("extension map entries are written as {} but the canonical order is {}", cbor::show(&V::M(got)), cbor::show(&V::M(want_ext))));
+                        }
+                        let canon = cbor::enc(&V::M(want_ext.clone()));
+                        if b[fixed_len..] != canon[..] {
+                            return finding("extension_map_encoding", format!("extension map bytes {} are not the canonical encoding {}", json::hex(&b[fixed_len..]), json::hex(&canon)));
                         }
                     }
                     other => {
